@@ -24,7 +24,7 @@ Your task: write ONE small change to the NON-TEST source code that BREAKS this p
       dropped step on an error path, a stale-state reuse) over vandalism.
 Also write a DEMONSTRATION: a Go test file (new file, e.g. zz_seed_demo_test.go in the relevant package; internal tests may access
 unexported identifiers) or a small program that FAILS with your change applied and PASSES on the original code. Verify both directions yourself
-(use `git stash` / `git diff` in your worktree).
+(save your change with `git diff > /tmp/seed/<id>.mine.diff`, revert with `git checkout -- <files>`, re-apply with `git apply`; do NOT use `git stash`: the stash is shared between worktrees).
 
 Deliver, inside your worktree, a directory .seed/ containing:
   patch.diff   — `git diff` of your change to non-test files only (must apply with `git apply` to a clean checkout of the same commit)
